@@ -85,7 +85,13 @@ def siteVsText (cls : Text) (s : Site) (t : Text) : Json :=
               ("shapeOk", .bool (match s.loc.shape with
                 | .gotFirst => true
                 | .gotLast => (splitLast sSemiGot rest).isSome
-                | .plain => true))]
+                | .plain => true)),
+              -- the hypothesis of the render → parse theorems (`goodTexts`) holds of the real text
+              ("problemOk", .bool (bodyWellFormed s.loc.shape
+                (match s.loc.shape with | .gotFirst => (dropPre sGot rest).getD [] | _ => rest))),
+              -- (evidence only) the problem text is an instance of typedpy's templates
+              ("templateOk", .bool (bodyHasTemplate s.loc.shape
+                (match s.loc.shape with | .gotFirst => (dropPre sGot rest).getD [] | _ => rest)))]
 
 def siteToJson (cls : Text) (s : Site) : Json :=
   Json.mkObj [("top", .str s.top), ("path", .str (ofText s.path)), ("shape", .str (shapeName s.loc.shape)),
@@ -142,10 +148,9 @@ def run (j : Json) : Except String Json := do
     | some "partial" => some .partialOf | some "allrequired" => some .allRequired
     | some "extend" => some .extend | some "omit" => some .omit | some "pick" => some .pick
     | _ => none
-  let decl : FieldDecl := match decl, derive with
-    | FieldDecl.struct c fields dflt, some d =>
-      FieldDecl.struct { c with name := String.ofList (derivedName d (viaName.map (·.toList)) baseName) } fields dflt
-    | d, _ => d
+  -- the message heads carry the REAL class name; the model's name for a derived class is compared
+  -- through the property-relevant abstraction only: is it in `[\w.]+` (a harmless renaming is no alarm)
+  let modelName : Option Text := derive.map fun d => derivedName d (viaName.map (·.toList)) baseName
   match decl with
   | .struct c fields _ =>
     -- the document as handed to the real code (document keys), re-keyed through the mapper
@@ -198,6 +203,10 @@ def run (j : Json) : Except String Json := do
                  ("invalid", Json.arr (invalid.map Json.str).toArray),
                  ("flat", Json.bool flat),
                  ("clsName", Json.str c.name),
+                 ("clsNameModel", match modelName with | some n => Json.str (ofText n) | none => Json.null),
+                 ("clsNameWordReal", Json.bool (identOk (codec alnum).word c.name.toList)),
+                 ("clsNameWordModel", match modelName with
+                    | some n => Json.bool (identOk (codec alnum).word n) | none => Json.null),
                  ("path", Json.bool pathOk),
                  ("kind", Json.str kind),
                  ("sites", Json.arr (expected.map (siteToJson cls)).toArray),
@@ -205,6 +214,13 @@ def run (j : Json) : Except String Json := do
                  ("cmp", Json.arr cmp.toArray),
                  ("mode", Json.str mode),
                  ("deep", Json.bool deep),
+                 -- the two Lean models of phase one (flat `p1Rejects`, general `deser` of Sem/Deser.lean) agree
+                 ("p1VsDeser", Json.bool (deep || mode != "deser" ||
+                    phaseOneInvalid O doc fields ==
+                      (fieldsD.filterMap fun nf => match lookup nf.1 doc with
+                        | none => none
+                        | some v => if v.isNone then none else
+                          if isOk (deser O opts c.ignoreNone nf.2 v) then none else some nf.1))),
                  ("phase1", Json.arr ((if deep then (p1SitesD O opts c.ignoreNone scratch doc fieldsD).map (·.top)
                                        else phaseOneInvalid O doc fields).map Json.str).toArray),
                  ("deserCollected", Json.arr ((deserCollected O c doc kw fields).map Json.str).toArray)]
